@@ -4,7 +4,7 @@
 use std::sync::LazyLock;
 
 use crypto::hashers;
-use kit::refmath::{addm, mulm, powm, P62, P64};
+use kit::refmath::{addm, mulm, powm, P62, P64, subm};
 use math::StarkField;
 
 pub struct RescueSpec {
@@ -154,6 +154,32 @@ impl RescueSpec {
         }
         bad.dedup();
         bad
+    }
+
+    /// The input state for which the state entering the MDS product number `target` (0..14: two per round) of
+    /// the permutation equals `u` - the permutation run backwards from there (needs the inverse MDS matrix).
+    pub fn preimage_for_mds_input(&self, target: usize, u: &[u128]) -> Option<Vec<u128>> {
+        let p = self.p;
+        let inv = self.inv_mds.as_ref()?;
+        let (round, second_half) = (target / 2, target % 2 == 1);
+        let mut s = u.to_vec();
+        if second_half {
+            // u is the state after the inverse S-box of this round: undo inverse S-box, constants, MDS
+            s = s.iter().map(|x| powm(*x, self.alpha, p)).collect();
+            s = s.iter().zip(&self.ark1[round]).map(|(a, b)| subm(*a, *b, p)).collect();
+            s = matvec(inv, &s, p);
+        }
+        // s is now the state after the S-box of `round`: undo it
+        s = s.iter().map(|x| powm(*x, self.inv_alpha, p)).collect();
+        for r in (0..round).rev() {
+            s = s.iter().zip(&self.ark2[r]).map(|(a, b)| subm(*a, *b, p)).collect();
+            s = matvec(inv, &s, p);
+            s = s.iter().map(|x| powm(*x, self.alpha, p)).collect();
+            s = s.iter().zip(&self.ark1[r]).map(|(a, b)| subm(*a, *b, p)).collect();
+            s = matvec(inv, &s, p);
+            s = s.iter().map(|x| powm(*x, self.inv_alpha, p)).collect();
+        }
+        Some(s)
     }
 
     pub fn permutation(&self, st: &[u128]) -> Vec<u128> {
